@@ -1,1 +1,342 @@
-/- C05 — property theorems (stub: not built yet) -/
+import Rivaas.Lemmas.PresenceExact
+import Rivaas.Lemmas.PresenceLeaf
+import Rivaas.Lemmas.PresenceErrors
+/-
+C05 — Validation is deterministic and partial validation follows presence.
+
+Property theorems about the model of `validation/presence.go` and the error pipeline of
+`validation/tags.go` (`Model/Presence.lean`) against the declarative oracle (`Spec/Presence.lean`).
+Helper lemmas live in `Lemmas/Presence*.lean` and `Lemmas/BytesOrder.lean`. The model follows the
+code after the `fix:` commits for K05, K05b, K05c, K05d, K05e, K05f; the behaviour as shipped is
+kept in the `…AsIs` definitions with a `decide` witness each.
+-/
+namespace Rivaas.C05
+open Rivaas.Presence
+
+/-! ## 1. ComputePresence marks exactly the paths that occur -/
+
+/-- the brute-force enumeration used by the driver's oracle is the declarative relation -/
+theorem enum_iff_occurs (kvs : List (Bytes × Json)) (sp : SegPath) : sp ∈ enumObj kvs ↔ Occurs kvs sp :=
+  ⟨enumObj_sound kvs sp, enum_complete⟩
+
+theorem mem_presence (top : List (Bytes × Json)) (p : Path) : p ∈ presence top ↔ p ∈ marks top := by
+  unfold presence; exact mem_canon
+
+/-- every marked path occurs in the body — for every body, however deep -/
+theorem presence_sound (top : List (Bytes × Json)) (p : Path) (h : p ∈ presence top) : OccursStr top p := by
+  have h1 := markEntries_sub top 0 [] p ((mem_presence top p).mp h)
+  simp only [List.mem_map] at h1
+  obtain ⟨sp, hsp, rfl⟩ := h1
+  exact ⟨sp, (enum_iff_occurs top sp).mp hsp, by simp [pref]⟩
+
+/-- within the documented recursion limit the marked paths are exactly the occurring ones -/
+theorem presence_exact (top : List (Bytes × Json)) (p : Path) (hd : depthObj top ≤ maxRecursionDepth) :
+    p ∈ presence top ↔ OccursStr top p := by
+  constructor
+  · exact presence_sound top p
+  · rintro ⟨sp, hsp, rfl⟩
+    rw [mem_presence, marks, markEntries_eq top 0 [] (by omega)]
+    exact List.mem_map.mpr ⟨sp, (enum_iff_occurs top sp).mpr hsp, by simp [pref]⟩
+
+/-- the limit in the hypothesis of `presence_exact` is met by ordinary bodies… -/
+example : depthObj [("user".toList, .obj [("name".toList, .leaf)]), ("user-id".toList, .leaf)]
+    ≤ maxRecursionDepth := by decide
+/-- …and the equivalence is not vacuous: `user.name` occurs and is marked, `name` neither -/
+example : "user.name".toList ∈ presence [("user".toList, .obj [("name".toList, .leaf)]), ("user-id".toList, .leaf)] := by
+  rw [mem_presence]; decide
+example : "name".toList ∉ presence [("user".toList, .obj [("name".toList, .leaf)]), ("user-id".toList, .leaf)] := by
+  rw [mem_presence]; decide
+
+/-- the observed presence set is in canonical form: strictly ascending, no duplicates -/
+theorem presence_canonical (top : List (Bytes × Json)) : (presence top).Pairwise ltB :=
+  dedupAdj_strict (sortPaths_sorted _)
+
+/-- Determinism of presence: the result depends only on *which paths occur*, not on the order in
+    which any object's keys are visited (`Occurs` speaks about membership only). -/
+theorem presence_depends_on_paths_only (t₁ t₂ : List (Bytes × Json))
+    (h₁ : depthObj t₁ ≤ maxRecursionDepth) (h₂ : depthObj t₂ ≤ maxRecursionDepth)
+    (h : ∀ p, OccursStr t₁ p ↔ OccursStr t₂ p) : presence t₁ = presence t₂ := by
+  apply strict_ext (presence_canonical t₁) (presence_canonical t₂)
+  intro p
+  rw [presence_exact t₁ p h₁, presence_exact t₂ p h₂, h]
+
+/-- Go visits the keys of the top-level map in an arbitrary order: any order gives the same set
+    (no depth hypothesis needed) -/
+theorem presence_perm (t₁ t₂ : List (Bytes × Json)) (h : t₁.Perm t₂) : presence t₁ = presence t₂ := by
+  unfold presence
+  apply canon_ext
+  intro p
+  unfold marks
+  rw [markEntries_flatMap, markEntries_flatMap]
+  exact (h.flatMap_right _).mem_iff
+
+/-- shallow subset test used by the oracle -/
+theorem lemma_subsetB {a b : List Path} : subsetB a b = true ↔ ∀ x ∈ a, x ∈ b := by
+  simp [subsetB, List.all_eq_true]
+
+/-- the model passes the presence oracle the driver evaluates on the implementation — all bodies -/
+theorem presenceOK_model (top : List (Bytes × Json)) : presenceOK top (presence top) = true := by
+  unfold presenceOK
+  simp only [Bool.and_eq_true, Bool.or_eq_true, decide_eq_true_eq, lemma_subsetB]
+  refine ⟨?_, ?_⟩
+  · intro p hp
+    obtain ⟨sp, hsp, rfl⟩ := presence_sound top p hp
+    exact List.mem_map.mpr ⟨sp, (enum_iff_occurs top sp).mpr hsp, rfl⟩
+  · by_cases hd : depthObj top > maxRecursionDepth
+    · exact Or.inl hd
+    · right
+      intro p hp
+      obtain ⟨sp, hsp, rfl⟩ := List.mem_map.mp hp
+      exact (presence_exact top _ (by omega)).mpr ⟨sp, (enum_iff_occurs top sp).mp hsp, rfl⟩
+
+/-- K05b, as shipped: under an empty top-level key the children lose their parent —
+    `{"":{"a":1}}` marks a top-level `a` that does not occur, and the oracle rejects it -/
+theorem presence_asis_witness :
+    "a".toList ∈ presenceAsIs [([], .obj [("a".toList, .leaf)])] ∧
+    ¬ OccursStr [([], .obj [("a".toList, .leaf)])] "a".toList ∧
+    "a".toList ∉ presence [([], .obj [("a".toList, .leaf)])] := by
+  refine ⟨by unfold presenceAsIs; rw [mem_canon]; decide, ?_, by rw [mem_presence]; decide⟩
+  intro h
+  have := (presence_exact [([], .obj [("a".toList, .leaf)])] "a".toList (by decide)).mpr h
+  rw [mem_presence] at this
+  revert this; decide
+
+/-! ## 2. LeafPaths returns exactly the marked paths without a marked descendant -/
+
+/-- for **every** path set (keys with characters below `.` included) -/
+theorem leaf_fixed_correct (pm : List Path) (p : Path) : p ∈ leafPaths pm ↔ IsLeaf pm p := by
+  unfold leafPaths; rw [mem_sortPaths]; exact mem_leafFilter pm p
+
+/-- not vacuous: in the K05 body `user.name` and `user-id` are leaves, `user` is not -/
+example : IsLeaf ["user".toList, "user-id".toList, "user.name".toList] "user.name".toList := by
+  rw [← isLeafB_iff]; decide
+example : ¬ IsLeaf ["user".toList, "user-id".toList, "user.name".toList] "user".toList := by
+  rw [← isLeafB_iff]; decide
+
+theorem leaf_sorted (pm : List Path) : (leafPaths pm).Pairwise (fun a b => leB a b = true) :=
+  sortPaths_sorted _
+
+/-- the keys of a map are distinct, so every leaf is returned once -/
+theorem leaf_nodup (pm : List Path) (h : pm.Nodup) : (leafPaths pm).Nodup := by
+  unfold leafPaths sortPaths
+  exact (List.mergeSort_perm _ _).nodup_iff.mpr (h.filter _)
+
+/-- map iteration order cannot change the result (the order of the leaves decides which errors
+    survive the cap, so this is part of determinism) -/
+theorem leaf_perm (pm₁ pm₂ : List Path) (h : pm₁.Perm pm₂) : leafPaths pm₁ = leafPaths pm₂ := by
+  rw [leafPaths_eq_spec, leafPaths_eq_spec]
+  exact sortPaths_perm (perm_leafFilter h)
+
+theorem lemma_strictAsc {l : List Path} (h : l.Pairwise ltB) : strictAsc l = true := by
+  induction l with
+  | nil => simp [strictAsc]
+  | cons a rest ih =>
+    cases rest with
+    | nil => simp [strictAsc]
+    | cons b rest' =>
+      have h1 := List.pairwise_cons.mp h
+      have hab := h1.1 b (List.mem_cons_self ..)
+      simp only [strictAsc, Bool.and_eq_true, bne_iff_ne, ne_eq]
+      exact ⟨⟨hab.1, hab.2⟩, ih h1.2⟩
+
+/-- a sorted list is a fixed point of the sort -/
+theorem lemma_sortPaths_of_sorted {l : List Path} (h : l.Pairwise (fun a b => leB a b = true)) :
+    sortPaths l = l :=
+  (List.mergeSort_perm l leB).eq_of_pairwise (le := fun a b => leB a b = true)
+    (fun a b _ _ h1 h2 => leB_antisymm a b h1 h2) (sortPaths_sorted l) h
+
+/-- the model passes the leaf oracle the driver evaluates on the implementation -/
+theorem leavesOK_model (pm : List Path) (h : pm.Nodup) : leavesOK pm (leafPaths pm) = true := by
+  unfold leavesOK
+  simp only [Bool.and_eq_true, List.all_eq_true]
+  refine ⟨⟨?_, ?_⟩, ?_⟩
+  · intro p hp
+    exact (isLeafB_iff pm p).mpr ((leaf_fixed_correct pm p).mp hp)
+  · intro p hp
+    have := (List.mem_filter.mp hp)
+    simp only [List.contains_iff_mem]
+    exact (leaf_fixed_correct pm p).mpr ((isLeafB_iff pm p).mp this.2)
+  · rw [lemma_sortPaths_of_sorted (leaf_sorted pm)]
+    apply lemma_strictAsc
+    have hs := leaf_sorted pm
+    have hn := leaf_nodup pm h
+    -- sorted ∧ nodup → strictly ascending
+    generalize leafPaths pm = l at hs hn
+    induction l with
+    | nil => exact List.Pairwise.nil
+    | cons a rest ih =>
+      have h1 := List.pairwise_cons.mp hs
+      have h2 := List.nodup_cons.mp hn
+      exact List.pairwise_cons.mpr ⟨fun x hx => ⟨h1.1 x hx, fun e => h2.1 (e ▸ hx)⟩, ih h1.2 h2.2⟩
+
+/-- K05, as shipped: comparing only neighbours in sorted order keeps `user` although `user.name`
+    is present, because the sibling `user-id` sorts between them -/
+theorem leaf_adjacent_witness :
+    "user".toList ∈ leafPathsAsIs ["user".toList, "user-id".toList, "user.name".toList] ∧
+    ¬ IsLeaf ["user".toList, "user-id".toList, "user.name".toList] "user".toList ∧
+    "user".toList ∉ leafPaths ["user".toList, "user-id".toList, "user.name".toList] := by
+  refine ⟨?_, by rw [← isLeafB_iff]; decide, ?_⟩
+  · unfold leafPathsAsIs
+    rw [lemma_sortPaths_of_sorted (by decide)]
+    decide
+  · rw [leaf_fixed_correct, ← isLeafB_iff]; decide
+
+/-! ## 3. partial validation reports an error iff the field is a present leaf that violates its own rule -/
+
+theorem lemma_mem_groups (leaves : List Path) (own : Path → List Viol) (o : Opts) (e : FieldErr) :
+    e ∈ (partialGroups mkErr leaves own o).flatten ↔
+      ∃ p ∈ leaves.take (maxLeaves o), ∃ v ∈ own p, e = mkErr o p v := by
+  simp only [partialGroups, List.mem_flatten, List.mem_map]
+  constructor
+  · rintro ⟨g, ⟨p, hp, rfl⟩, he⟩
+    obtain ⟨v, hv, rfl⟩ := List.mem_map.mp he
+    exact ⟨p, hp, v, hv, rfl⟩
+  · rintro ⟨p, hp, v, hv, rfl⟩
+    exact ⟨_, ⟨p, hp, rfl⟩, List.mem_map.mpr ⟨v, hv, rfl⟩⟩
+
+theorem lemma_mem_take_flatten {α : Type} (groups : List (List α)) (k : Nat) (e : α)
+    (h : e ∈ (groups.take k).flatten) : e ∈ groups.flatten := by
+  simp only [List.mem_flatten] at h ⊢
+  obtain ⟨g, hg, he⟩ := h
+  exact ⟨g, List.mem_of_mem_take hg, he⟩
+
+/-- what the loop returned is a prefix (in leaf order) of the uncapped error list -/
+theorem partial_prefix (pm : List Path) (rules : List Rule) (o : Opts) :
+    ∃ k, (fieldsOf (validatePartial pm rules o)).Perm
+      ((partialGroups mkErr (leafPaths pm) (ownTags rules) o).take k).flatten := by
+  obtain ⟨k, _, h1, _, _⟩ := capLoop_spec o.maxErrors (partialGroups mkErr (leafPaths pm) (ownTags rules) o) []
+  refine ⟨k, ?_⟩
+  have := partialFrom_fields mkErr (leafPaths pm) (ownTags rules) o
+  rw [h1, List.nil_append] at this
+  exact this
+
+/-- **soundness** — every reported error concerns a present leaf and is a violation of that
+    leaf's own rule; in particular never an absent field -/
+theorem partial_sound (pm : List Path) (rules : List Rule) (o : Opts) (e : FieldErr)
+    (he : e ∈ fieldsOf (validatePartial pm rules o)) :
+    IsLeaf pm e.path ∧ ∃ v ∈ ownTags rules e.path, e = mkErr o e.path v := by
+  obtain ⟨k, hk⟩ := partial_prefix pm rules o
+  have h1 := lemma_mem_take_flatten _ k e (hk.mem_iff.mp he)
+  obtain ⟨p, hp, v, hv, rfl⟩ := (lemma_mem_groups _ _ _ _).mp h1
+  have hpl : p ∈ leafPaths pm := List.mem_of_mem_take hp
+  exact ⟨(leaf_fixed_correct pm p).mp hpl, v, hv, rfl⟩
+
+theorem partial_never_absent (pm : List Path) (rules : List Rule) (o : Opts) (e : FieldErr)
+    (he : e ∈ fieldsOf (validatePartial pm rules o)) : e.path ∈ pm :=
+  (partial_sound pm rules o e he).1.1
+
+/-- **completeness** — unless the result says `Truncated` (or the body has more leaves than the
+    configured field limit), every violation of a present leaf's own rule is reported -/
+theorem partial_complete (pm : List Path) (rules : List Rule) (o : Opts)
+    (ht : truncOf (validatePartial pm rules o) = false) (hl : (leafPaths pm).length ≤ maxLeaves o)
+    (p : Path) (hp : IsLeaf pm p) (v : Viol) (hv : v ∈ ownTags rules p) :
+    mkErr o p v ∈ fieldsOf (validatePartial pm rules o) := by
+  obtain ⟨k, _, h1, h2, _⟩ := capLoop_spec o.maxErrors (partialGroups mkErr (leafPaths pm) (ownTags rules) o) []
+  have ht' : (capLoop o.maxErrors (partialGroups mkErr (leafPaths pm) (ownTags rules) o) []).2 = false := by
+    rw [← partialFrom_trunc]; exact ht
+  have hk := h2 ht'
+  have hf := partialFrom_fields mkErr (leafPaths pm) (ownTags rules) o
+  rw [h1, List.nil_append, hk, List.take_length] at hf
+  apply hf.mem_iff.mpr
+  apply (lemma_mem_groups _ _ _ _).mpr
+  refine ⟨p, ?_, v, hv, rfl⟩
+  rw [List.take_of_length_le hl]
+  exact (leaf_fixed_correct pm p).mpr hp
+
+theorem lemma_violations (rules : List Rule) (p : Path) :
+    violations rules p = (ownTags rules p).map fun v => ⟨p, tagPrefix ++ v.tag, v.shows⟩ := by
+  unfold violations ownTags ruleFor
+  cases rules.find? (fun r => r.path == p) with
+  | none => rfl
+  | some r => by_cases h : r.resolves <;> simp [h]
+
+/-- **the statement's iff** — for every path set, rule table, path and code -/
+theorem partial_iff (pm : List Path) (rules : List Rule) (o : Opts)
+    (ht : truncOf (validatePartial pm rules o) = false) (hl : (leafPaths pm).length ≤ maxLeaves o)
+    (p : Path) (c : Bytes) :
+    (∃ e ∈ fieldsOf (validatePartial pm rules o), e.path = p ∧ e.code = c) ↔ Expected pm rules p c := by
+  unfold Expected
+  rw [lemma_violations]
+  constructor
+  · rintro ⟨e, he, rfl, rfl⟩
+    obtain ⟨hleaf, v, hv, hev⟩ := partial_sound pm rules o e he
+    refine ⟨hleaf, ⟨e.path, tagPrefix ++ v.tag, v.shows⟩, List.mem_map.mpr ⟨v, hv, rfl⟩, ?_⟩
+    rw [hev]; rfl
+  · rintro ⟨hleaf, w, hw, rfl⟩
+    obtain ⟨v, hv, rfl⟩ := List.mem_map.mp hw
+    exact ⟨mkErr o p v, partial_complete pm rules o ht hl p hleaf v hv, rfl, rfl⟩
+
+/-- non-vacuity of `partial_iff`: the K05 body with a rule on `user.name` that is violated and a
+    rule on `user-id` that is not — hypotheses hold, the left side is inhabited -/
+example :
+    let pm := ["user".toList, "user-id".toList, "user.name".toList]
+    let rules : List Rule := [⟨"user.name".toList, true, [⟨"min".toList, []⟩], false, true, some ["min".toList]⟩,
+                             ⟨"user-id".toList, true, [], false, true, some []⟩]
+    let o : Opts := ⟨0, 0, []⟩
+    truncOf (validatePartial pm rules o) = false ∧ (leafPaths pm).length ≤ maxLeaves o ∧
+    Expected pm rules "user.name".toList "tag.min".toList ∧ ¬ Expected pm rules "user-id".toList "tag.min".toList := by
+  refine ⟨?_, ?_, ?_, ?_⟩
+  · rw [validatePartial, partialFrom_trunc, capLoop_unlimited]
+  · show (leafPaths _).length ≤ 10000
+    rw [leafPaths, sortPaths_length]; decide
+  · refine ⟨by rw [← isLeafB_iff]; decide, ?_⟩; decide
+  · rintro ⟨_, h⟩; revert h; decide
+
+/-! ## 4. capped at the configured maximum with Truncated set; ordered; redacted -/
+
+/-- `Truncated` is set only at a positive maximum that has been reached -/
+theorem truncated_only_when_full (pm : List Path) (rules : List Rule) (o : Opts)
+    (ht : truncOf (validatePartial pm rules o) = true) :
+    o.maxErrors > 0 ∧ (fieldsOf (validatePartial pm rules o)).length ≥ o.maxErrors := by
+  obtain ⟨_, _, _, _, h3⟩ := capLoop_spec o.maxErrors (partialGroups mkErr (leafPaths pm) (ownTags rules) o) []
+  rw [validatePartial, partialFrom_trunc] at ht
+  have := h3 ht
+  rw [(partialFrom_fields mkErr (leafPaths pm) (ownTags rules) o).length_eq]
+  exact this
+
+/-- with single-field rules (at most one error per field) the list never exceeds the maximum, is
+    exactly full when `Truncated`, and below the maximum otherwise -/
+theorem errors_capped (pm : List Path) (rules : List Rule) (o : Opts) (hm : o.maxErrors > 0)
+    (hs : ∀ p, (ownTags rules p).length ≤ 1) :
+    (fieldsOf (validatePartial pm rules o)).length ≤ o.maxErrors ∧
+    (truncOf (validatePartial pm rules o) = true → (fieldsOf (validatePartial pm rules o)).length = o.maxErrors) ∧
+    (truncOf (validatePartial pm rules o) = false → (fieldsOf (validatePartial pm rules o)).length < o.maxErrors) := by
+  have hg : ∀ g ∈ partialGroups mkErr (leafPaths pm) (ownTags rules) o, g.length ≤ 1 := by
+    intro g hg
+    simp only [partialGroups, List.mem_map] at hg
+    obtain ⟨p, _, rfl⟩ := hg
+    simpa using hs p
+  have := capLoop_capped o.maxErrors hm _ hg [] (by simpa using hm)
+  rw [validatePartial, partialFrom_trunc, (partialFrom_fields mkErr (leafPaths pm) (ownTags rules) o).length_eq]
+  exact this
+
+/-- the returned list is ordered by path, then code (`Error.Sort`) -/
+theorem errors_sorted (pm : List Path) (rules : List Rule) (o : Opts) :
+    (fieldsOf (validatePartial pm rules o)).Pairwise (fun a b => errLe a b = true) :=
+  partialFrom_sorted _ _ _ _
+
+/-- an error whose path the redactor covers never shows its value… -/
+theorem redacted_absent (pm : List Path) (rules : List Rule) (o : Opts) (e : FieldErr)
+    (he : e ∈ fieldsOf (validatePartial pm rules o)) (hr : e.path ∈ o.redacted) : e.hidden = true := by
+  obtain ⟨_, v, _, hev⟩ := partial_sound pm rules o e he
+  rw [hev]
+  simp [mkErr, hr]
+
+/-- …nor does an error on a struct, slice or map whose printed value would reveal a covered path -/
+theorem redacted_nested_absent (pm : List Path) (rules : List Rule) (o : Opts) (e : FieldErr)
+    (he : e ∈ fieldsOf (validatePartial pm rules o)) :
+    ∃ v ∈ ownTags rules e.path, e = mkErr o e.path v ∧ ((∃ q ∈ v.shows, q ∈ o.redacted) → e.hidden = true) := by
+  obtain ⟨_, v, hv, hev⟩ := partial_sound pm rules o e he
+  refine ⟨v, hv, hev, ?_⟩
+  rintro ⟨q, hq, hqr⟩
+  rw [hev]
+  simp only [mkErr, Bool.or_eq_true, List.any_eq_true, List.contains_iff_mem]
+  exact Or.inr ⟨q, hq, hqr⟩
+
+/-- **determinism** — the whole result is a function of the path *set*: no iteration order of the
+    presence map can change the ordered error list, `Truncated`, or which errors survive the cap -/
+theorem validate_perm (pm₁ pm₂ : List Path) (h : pm₁.Perm pm₂) (rules : List Rule) (o : Opts) :
+    validatePartial pm₁ rules o = validatePartial pm₂ rules o := by
+  unfold validatePartial; rw [leaf_perm pm₁ pm₂ h]
+
+end Rivaas.C05
